@@ -402,6 +402,29 @@ func r1Pair(c *mon.Case) {
 	if A.InteriorIntersects(B) && !A.Intersects(B) {
 		c.Violation("r1/InteriorIntersects-implies-Intersects/wrong-answer", "InteriorIntersects but not Intersects", desc())
 	}
+	// interior forms against open membership lo < p < hi, by witnesses among the probes (the probes hold every
+	// endpoint, its ulp neighbours and the midpoints between them, so a witness exists whenever one is needed)
+	open := func(x r1.Interval, p float64) bool { return x.Lo < p && p < x.Hi }
+	allIn, common := true, false
+	for _, p := range probes {
+		if A.InteriorContains(p) != open(A, p) {
+			c.Violation("r1/InteriorContains-point/wrong-answer", "InteriorContains("+hx(p)+") disagrees with lo<p<hi", desc())
+		}
+		if r1In(B, p) && !open(A, p) {
+			allIn = false
+		}
+		if r1In(B, p) && open(A, p) {
+			common = true
+		}
+	}
+	if got := A.InteriorContainsInterval(B); got != allIn {
+		c.Violation("r1/InteriorContainsInterval/wrong-answer", fmt.Sprintf("InteriorContainsInterval=%v but the probes of B strictly inside A say %v", got, allIn), desc())
+	}
+	// (an interval between two adjacent floats has an interior without representable points: no witness)
+	thin := !A.IsEmpty() && math.Nextafter(math.Nextafter(A.Lo, math.Inf(1)), math.Inf(1)) >= A.Hi
+	if got := A.InteriorIntersects(B); got != common && !(got && thin) {
+		c.Violation("r1/InteriorIntersects/wrong-answer", fmt.Sprintf("InteriorIntersects=%v but a point of B strictly inside A exists: %v", got, common), desc())
+	}
 }
 
 // ---------- r2.Rect ----------
@@ -746,6 +769,21 @@ func capPair(c *mon.Case) {
 		}
 		if contains && b && out(A) {
 			c.Violation("cap/Contains/true-but-point-outside/"+mon.Severity(outsideBy(A, p)), "A.Contains(B) but a point of B is outside A: "+gen.Hex(p), desc())
+		}
+		if oa := outsideBy(A, p); !A.IsEmpty() {
+			if ip := A.InteriorContainsPoint(p); ip && !a {
+				c.Violation("cap/InteriorContainsPoint/true-but-not-contained/wrong-answer", "InteriorContainsPoint is true but ContainsPoint is false for "+gen.Hex(p), desc())
+			} else if ip && oa > capSlack {
+				c.Violation("cap/InteriorContainsPoint/true-for-outside-point/"+mon.Severity(oa), "InteriorContainsPoint is true for a point outside the cap: "+gen.Hex(p), desc())
+			} else if !ip && oa < -capSlack {
+				c.Violation("cap/InteriorContainsPoint/false-for-inside-point/"+mon.Severity(-oa), "InteriorContainsPoint is false for a point strictly inside the cap: "+gen.Hex(p), desc())
+			}
+			if !A.InteriorIntersects(B) && oa < -capSlack && b && outsideBy(B, p) < -capSlack {
+				c.Violation("cap/InteriorIntersects/false-but-common-interior-point/wrong-answer", "InteriorIntersects is false but a point lies strictly inside both caps: "+gen.Hex(p), desc())
+			}
+		}
+		if A.InteriorIntersects(B) && !intersects {
+			c.Violation("cap/InteriorIntersects/true-but-not-Intersects/wrong-answer", "InteriorIntersects is true but Intersects is false", desc())
 		}
 		if !intersects && a && b && outsideBy(A, p) < -capSlack && outsideBy(B, p) < -capSlack {
 			c.Violation("cap/Intersects/false-but-common-point/wrong-answer", "A.Intersects(B) is false but both contain (with margin) "+gen.Hex(p), desc())
